@@ -6,7 +6,7 @@ READY = True
 META = {
     "technique": "Lean 4 proof (block-stack driver with LoadBlocks / parent switch / depth cursor / BlockState::Replace / recursion-limit accounting refines a stack-free specification for every environment of the fragment and every fuel; termination, cycle, double-extends, missing-template, include and import theorems) + differential correspondence of the model with the real engine on enumerated and sampled template environments",
     "category": "proof",
-    "text": "Kernel-checked theorems about MJ/Model/Blocks.lean (transcription of LoadBlocks, the end-of-instructions parent switch, call_block incl. self.name() and required blocks, perform_super emitted and captured, perform_include, import/from-import codegen, loops, macro calls, variable frames, and the recursion limit = outer_stack_depth + frames with INCLUDE_/MACRO_RECURSION_COST regenerated from the sources): blocks_refine_spec — for every environment whose templates are built from text, variables, set, macros, block tags, self.name(), super() (both also captured into variables), required blocks, conditional extends (executed or not, anything before/behind it), include (names, lists, ignore missing; included templates being inheritance chains of their own), import/from-import, loops and macro calls, with well-founded block nesting, and for every fuel, the stateful driver returns exactly the output or error chain of the specification (no block stacks, no cursor, no capture stack, no loaded set); corollaries block_renders_most_derived, super_goes_one_up, untouched_falls_through, child_text_discarded; rendering_terminates (the recursion limit, not the model's fuel, bounds every nest), extends_terminates / cycle_is_detected_error, include_cycle_errors (include cycles end in BadInclude…InvalidOperation), double_extends_error, missing_is_error_not_truncation, include_first_existing, import_exports_toplevel, import_of_extending_template. The model is tied to /repo by rendering every generated environment (all 1- and 2-template block assignments exhaustively, sampled chains of up to 4 templates with include/import/self-call snippets at top level, in loops, macros and blocks, static/dynamic/conditional extends, captured super, required blocks, inheritance and include cycles, double extends, missing templates) with the real engine in supervised child processes (hang / stack overflow = failure) and comparing output or the exact error-kind chain with the Lean model; the Lean specification itself is evaluated on every case inside the fragment, and an independent substitution-style spec in Python is the oracle.",
+    "text": "Kernel-checked theorems about MJ/Model/Blocks.lean (transcription of LoadBlocks, the end-of-instructions parent switch, call_block incl. self.name() and required blocks, perform_super emitted and captured, perform_include, import/from-import codegen, loops, macro calls, variable frames, the auto-escape mode (each template's initial mode as the default callback derives it from the name — extension table regenerated from defaults.rs; include/import switch to the included template's own mode and back, blocks / super() / macros / the parent layout reached through extends keep the current mode, {% autoescape %} blocks; write_escaped for Html with the regenerated escape table and for Json) and the recursion limit = outer_stack_depth + frames with INCLUDE_/MACRO_RECURSION_COST regenerated from the sources): blocks_refine_spec — for every environment whose templates are built from text, variables, set, macros, block tags, self.name(), super() (both also captured into variables), required blocks, conditional extends (executed or not, anything before/behind it), include (names, lists, ignore missing; included templates being inheritance chains of their own), import/from-import, loops and macro calls, with well-founded block nesting, and for every fuel, the stateful driver returns exactly the output or error chain of the specification (no block stacks, no cursor, no capture stack, no loaded set); corollaries block_renders_most_derived, super_goes_one_up, untouched_falls_through, child_text_discarded; rendering_terminates (the recursion limit, not the model's fuel, bounds every nest), extends_terminates / cycle_is_detected_error, include_cycle_errors (include cycles end in BadInclude…InvalidOperation), double_extends_error, missing_is_error_not_truncation, include_first_existing, import_exports_toplevel, import_of_extending_template. The model is tied to /repo by rendering every generated environment (all 1- and 2-template block assignments exhaustively, sampled chains of up to 4 templates with include/import/self-call snippets at top level, in loops, macros and blocks, static/dynamic/conditional extends, captured super, required blocks, inheritance and include cycles, double extends, missing templates) with the real engine in supervised child processes (hang / stack overflow = failure) and comparing output or the exact error-kind chain with the Lean model; template names carry mixed extensions (.html .txt .json .xml .js .htm .yaml, with .j2/.jinja suffixes) and the variable values contain the characters the modes treat differently; the Lean specification itself is evaluated on every case inside the fragment, an independent substitution-style spec in Python is the oracle, and a metamorphic oracle checks for every case that a wrapper template of another mode that only includes t0 renders exactly what t0 renders on its own.",
     "design_ref": "DESIGN.md §3 C06",
     "level_note": "Trusted: Lean kernel; hand transcription of vm/mod.rs (LoadBlocks, end of instructions, call_block, perform_super, perform_include, ExportLocals, macro calls), vm/state.rs (BlockStack, with_execution_state), vm/context.rs (depth accounting) and the Import/FromImport/Extends/Block code generation into MJ/Model/Blocks.lean, validated differentially (not proved) on ~1.6e4 (quick) / ~1.4e5 (thorough) environments; the pretty-printer from abstract templates to Jinja source in harness/src/bin/c06.rs. Outside the proven fragment (validated by the correspondence only): super() at the top level of an included template, block references from a block to a lower-numbered block or from inside a macro, extends inside loops/macros/blocks, macro closures over enclosing locals. The specification threads variable frames exactly like the engine (it abstracts from the block machinery, not from variable scoping).",
 }
@@ -78,6 +78,8 @@ class Toks:
             return ("for", v, vals, self.items())
         if k == "inmac":
             return ("inmac", self.num(), self.num(), self.next(), self.items())
+        if k == "ae":
+            return ("ae", self.next(), self.items())
         raise ValueError("bad item tag " + k)
 
 
@@ -87,16 +89,45 @@ def parse_case(line):
     env = []
     for _ in range(tk.num()):
         assert tk.next() == "T"
+        ext = tk.next()
         layout = tk.items()
         blocks = {}
         for _ in range(tk.num()):
             n = tk.num()
             blocks[n] = tk.items()
-        env.append((layout, blocks))
+        env.append((layout, blocks, mode_of_name("t." + ext)))
     return fam, env
 
 
 # ---------------------------------------------------------------------------- the spec (oracle)
+V0 = "C<&\"'/\u00e90"   # the harness' render context value of v0
+
+
+def mode_of_name(name):
+    """the environment's default auto-escape callback, read off the documentation of
+    `Environment::set_auto_escape_callback` / `default_auto_escape_callback`"""
+    for ign in (".j2", ".jinja2", ".jinja"):
+        if name.endswith(ign):
+            name = name[: -len(ign)]
+            break
+    ext = name.rsplit(".", 1)[-1]
+    if ext in ("html", "htm", "xml"):
+        return "html"
+    if ext in ("json", "json5", "js", "yaml", "yml"):
+        return "json"
+    return "none"
+
+
+def fmt(mode, s):
+    """how `{{ value }}` prints a plain string under an auto-escape mode"""
+    if mode == "html":
+        return (s.replace("&", "&amp;").replace("<", "&lt;").replace(">", "&gt;").replace('"', "&quot;")
+                .replace("'", "&#x27;").replace("/", "&#x2f;"))
+    if mode == "json":
+        return json.dumps(s, ensure_ascii=False)
+    return s
+
+
 class SpecErr(Exception):
     """the specification says: rendering is an error of this (innermost) kind"""
 
@@ -117,7 +148,8 @@ class Spec:
 
     def __init__(self, env):
         self.env = env
-        self.root_ctx = {0: ("str", "C0")}
+        self.root_ctx = {0: ("str", V0)}
+        self.mode = "none"  # the current auto-escape mode
 
     def lookup(self, scopes, v):
         for sc in reversed(scopes):
@@ -126,7 +158,14 @@ class Spec:
         return self.root_ctx.get(v)
 
     def render(self):
+        self.mode = self.env[0][2]
         return "".join(self.template(0, [{}], False, 0))
+
+    def undef(self, say):
+        return say("null") if self.mode == "json" else []
+
+    def captured(self, txt):
+        return ("str", txt) if self.mode == "none" else ("safe", txt)
 
     def template(self, idx, scopes, silent, depth):
         """render template idx (and whatever it extends) → list of pieces"""
@@ -139,7 +178,7 @@ class Spec:
         for n, b in self.env[t][1].items():
             defs.setdefault(n, []).append(b)
         while True:
-            layout, blocks = self.env[t]
+            layout, blocks = self.env[t][0], self.env[t][1]
             parent = None
             for it in layout:
                 if it[0] == "extends":
@@ -191,7 +230,12 @@ class Spec:
         missing = False
         for t in names:
             if t < len(self.env):
-                return self.template(t, scopes, silent, depth + 1)
+                # the included template renders as it would on its own: in the mode of its name
+                saved, self.mode = self.mode, self.env[t][2]
+                try:
+                    return self.template(t, scopes, silent, depth + 1)
+                finally:
+                    self.mode = saved
             missing = True
         if missing and not ign:
             raise SpecErr("TemplateNotFound")
@@ -220,11 +264,15 @@ class Spec:
         if k == "var":
             v = self.lookup(scopes, it[1])
             if v is None or v == UNDEF:
-                return []
+                return self.undef(say)
             if v[0] == "str":
+                return say(fmt(self.mode, v[1]))
+            if v[0] == "safe":
                 return say(v[1])
             if v[0] == "mac":
-                return say("<macro v%d>" % v[1])
+                if self.mode == "json":
+                    return say('{"name":"v%d","arguments":[],"caller":false}' % v[1])
+                return say(fmt(self.mode, "<macro v%d>" % v[1]))
             raise NotImplementedError
         if k == "set":
             scopes[-1][it[1]] = ("str", it[2])
@@ -258,22 +306,24 @@ class Spec:
                 raise NotImplementedError
             a = v[1].get(it[2], UNDEF)
             if a == UNDEF:
-                return []
+                return self.undef(say)
             if a[0] == "str":
+                return say(fmt(self.mode, a[1]))
+            if a[0] == "safe":
                 return say(a[1])
             raise NotImplementedError
         if k == "keys":
             v = self.lookup(scopes, it[1])
             if v is None or v == UNDEF:
-                return []
+                return say(fmt(self.mode, ""))
             if v[0] != "module":
                 raise NotImplementedError
-            return say(",".join("v%d" % x for x in sorted(v[1])))
+            return say(fmt(self.mode, ",".join("v%d" % x for x in sorted(v[1]))))
         if k == "call":
             v = self.lookup(scopes, it[1])
             if v is None:
                 raise SpecErr("UnknownFunction")
-            if v == UNDEF or v[0] == "str":
+            if v == UNDEF or v[0] in ("str", "safe"):
                 raise SpecErr("InvalidOperation")  # not callable
             if v[0] != "mac":
                 raise NotImplementedError
@@ -288,15 +338,15 @@ class Spec:
             if lvl + 1 >= len(defs.get(n, [])):
                 raise SpecErr("InvalidOperation")
             txt = "".join(self.body(defs, n, lvl + 1, scopes, False, depth + 1))
-            scopes[-1][it[1]] = ("str", txt)
+            scopes[-1][it[1]] = self.captured(txt)
             return []
         if k == "sself":
             # captured self.block(): skipped only while a parent is pending
             if extending:
-                scopes[-1][it[1]] = ("str", "")
+                scopes[-1][it[1]] = self.captured("")
                 return []
             txt = "".join(self.block(defs, it[2], scopes, False, depth))
-            scopes[-1][it[1]] = ("str", txt)
+            scopes[-1][it[1]] = self.captured(txt)
             return []
         if k == "for":
             out = []
@@ -312,6 +362,17 @@ class Spec:
             finally:
                 scopes.pop()
             return out
+        if k == "ae":
+            saved, self.mode = self.mode, it[1]
+            try:
+                out = []
+                for sub in it[2]:
+                    if sub[0] in ("extends", "ae"):
+                        raise NotImplementedError
+                    out += self.item(sub, defs, cur, scopes, silent, extending, depth + 1)
+                return out
+            finally:
+                self.mode = saved
         if k == "inmac":
             scopes[-1][it[1]] = ("opaque",)
             inner = [{it[2]: ("str", it[3])}]
@@ -398,16 +459,17 @@ def nontrivial(case):
 
 
 def run(r):
-    r.rule = ("every assignment of {absent, override, super-before, super-after} to 3 blocks (one nestable) for chains of 1 and 2 "
+    r.rule = ("templates named t<i>.<ext> with mixed extensions; every assignment of {absent, override, super-before, super-after} to 3 blocks (one nestable) for chains of 1 and 2 "
               "templates (exhaustive), seeded random chains of 1..4 templates with static/dynamic/conditional extends, the same "
-              "with 1-2 include/import/self-call snippets (30 kinds) at top level / in blocks / loops / macros, plus enumerated inheritance "
+              "with 1-2 include/import/self-call snippets (30 kinds) at top level / in blocks / loops / macros, plus enumerated auto-escape mode crossings (includer x included x placement x include/import/from-import, child x parent for extends/super), inheritance "
               "cycles, include cycles, double extends and missing templates; a case is non-trivial when it executes an extends, "
               "include or import")
     r.assumptions = [
         "the model's nesting fuel (4000) is never exhausted (rendering_terminates: (LIMIT-1)*(|env|+2)+|env|+1 would be needed only by adversarial nests; the generated cases stay far below)",
         "template/block/variable names are the harness' canonical t<i>/b<n>/v<n>; name syntax and path joining are not part of this property",
     ]
-    r.regen_tables(["MAX_RECURSION_ENV", "INCLUDE_RECURSION_COST", "MACRO_RECURSION_COST"])
+    r.regen_tables(["MAX_RECURSION_ENV", "INCLUDE_RECURSION_COST", "MACRO_RECURSION_COST",
+                    "C06_AUTO_ESCAPE_EXTENSIONS", "HTML_ESCAPE_TABLE"])
     r.lean_prove("MJ.Props.C06", "MJ/Audit/C06.lean", extra_targets=["drive_c06"])
     exe = r.cargo_build("c06")
     if exe is None:
@@ -424,10 +486,15 @@ def run(r):
     r.exhaustive = False
     for i, line in enumerate(lines):
         f = line.split("\t")
-        if len(f) != 3:
+        if len(f) != 4:
             r.broken.append(f"malformed harness line {i}")
             continue
-        case, impl, detail = f
+        case, impl, detail, meta = f
+        r.hist["metamorphic include == alone"][meta.split(":")[0]] += 1
+        if meta.startswith("diff:"):
+            r.oracle_failure(case, "a wrapper template that only includes t0 does not render what t0 renders on its own "
+                             f"with the same variables: t0 alone {impl[:300]} — wrapper {meta[5:300]}",
+                             "include-differs-from-standalone:" + case.split(" ", 1)[0])
         fam = case.split(" ", 1)[0]
         if impl == "skipped":
             r.hist["result"]["skipped"] += 1
@@ -467,7 +534,10 @@ def replay(r, path):
             continue
         rc, out, err = r.harness(exe, ["src"] + case.split())
         print(out.strip())
-        last = out.strip().splitlines()[-1] if out.strip() else ""
+        for l in out.strip().splitlines():
+            if "\tdiff:" in l:
+                print("metamorphic:", l.split("\t")[3][:400])
+        last = [l for l in out.strip().splitlines() if "\t" in l][0] if out.strip() else ""
         model = r.driver("drive_c06", case + "\n")
         print("model:", model[0].split("\t")[1] if model else None)
         print("lean spec:", model[0].split("\t")[2] if model else None)
